@@ -31,6 +31,8 @@ META = {
 }
 
 MODES = ["chainable", "lenient", "semistrict", "strict"]
+SITE_STREAMS = ("site", "fmt", "fmtv", "fmtc")
+MODEL_STREAMS = ("site", "fmt", "fmtv", "fmtc", "prog", "progv", "progc")
 NEEDED = ["C12_MODES", "C12_HANDLE_UNDEFINED", "C12_IS_TRUE", "C12_ASSERT_ITERABLE", "C12_ASSERT_VALUE_NOT_UNDEFINED",
           "C12_TRY_ITER", "C12_VM_EMIT", "C12_VM_SLICE", "C12_ENV_FORMAT", "C12_VM_SITES", "C12_BUILTIN_NAMES"]
 
@@ -86,19 +88,20 @@ def judge(r, stream, label, src, rs):
         if rs[j].startswith("ok:"):
             for i in range(j):
                 if rs[i] != rs[j]:
-                    who = builtin_of(stream, label) or (label.split(":")[0] + ":" + src if stream in ("site", "fmt", "stmt") else "program")
+                    who = builtin_of(stream, label) or (label.split(":")[0] + ":" + src if stream in SITE_STREAMS or stream.startswith("stmt") else "program")
                     weak = rs[i] if not rs[i].startswith(("ok:", "panic:")) else rs[i].split(":")[0] + ":different-output" if rs[i].startswith("ok:") else "panic"
                     r.oracle_failure(case, f"{MODES[j]} renders {dec(rs[j])!r} but the weaker mode {MODES[i]} gives {dec(rs[i])!r}",
                                      f"mono:{stream}:{who}:{MODES[j]}-ok/{MODES[i]}-{weak}")
                     n += 1
     # (2) the documented site matrix
-    if stream in ("site", "fmt"):
+    if stream in SITE_STREAMS:
         klass, exp_hex = label.split(":")
         if klass in MATRIX:
-            want_out = "ok:" + ("" if exp_hex == "-" else exp_hex)
+            # `*`: the visible / counting formatters print other text; only ok-vs-error is judged there
+            want_out = None if exp_hex == "*" else "ok:" + ("" if exp_hex == "-" else exp_hex)
             for i, must_fail in enumerate(MATRIX[klass]):
-                want = "err:UndefinedError" if must_fail else want_out
-                if rs[i] != want:
+                want = "err:UndefinedError" if must_fail else (want_out or "ok:<any output>")
+                if (rs[i] != want) if (must_fail or want_out) else (not rs[i].startswith("ok:")):
                     r.oracle_failure(case, f"site class `{klass}`: under {MODES[i]} expected {dec(want)!r}, engine gives {dec(rs[i])!r}",
                                      f"site:{stream}:{klass}:{src}:{MODES[i]}")
                     n += 1
@@ -106,12 +109,14 @@ def judge(r, stream, label, src, rs):
 
 
 def run(r):
-    r.rule = ("site templates (documented matrix, default + custom formatter); every builtin filter/test/function with a "
+    r.rule = ("site templates (documented matrix; default formatter and three custom formatters: delegating, one that prints "
+              "undefined as U and none as N, one counting its invocations); every builtin filter/test/function with a "
               "valid call in which each argument position (and pairs, arities, kwargs, block forms) is replaced by undefined / "
               "silent undefined / none / [x, undefined] / {'k': undefined} / a missing attribute; every builtin x receiver x "
               "argument lists of arity 0..2 (thorough: 3) over a pool of 11 operands; ~130 statement forms with an undefined "
               "operand (include/extends/import/macro/call/autoescape/unpacking/recursive loops/loop.*/namespace/functions/"
-              "methods/literals); seeded random programs of the core "
+              "methods/literals), also through the visible and counting formatters; seeded random programs (1/3 also through "
+              "the visible, 1/6 through the counting formatter) of the core "
               "fragment (print, if/elif/else, for/else, set, set-block, with, attribute/item chains, slices, not/and/or, "
               "ternary with and without else, comparisons and chains, in, ~, + - *, tests, filters; the `rich` half adds macros, "
               "filter blocks, loop.*, range, dict(**), more builtins). Each case = 4 renders. A case is non-trivial when the "
@@ -163,7 +168,7 @@ def run(r):
         for x in rs:
             if not x.startswith("ok:"):
                 r.hist["error kinds"][x.split(":")[0] + ":" + (x.split(":")[1] if x.startswith("err:") else "")] += 1
-        if stream in ("site", "fmt"):
+        if stream in SITE_STREAMS:
             r.hist["site class"][label.split(":")[0]] += 1
         b = builtin_of(stream, label)
         if b:
